@@ -313,7 +313,18 @@ fn eval_variant(site: &Site, style: &str, truecolor: bool, ctx: &Ctx, roundtrip:
             }
         }
     }
+    // `syntax` as the foreground of a hunk-line style, with a theme on: the text is highlighted, so
+    // every character carries a foreground colour from the theme (which one is the theme's business)
+    let syntax_due = v.theme && spec.fg == ColorSpec::Syntax && matches!(site.option, "minus-style" | "plus-style" | "zero-style" | "minus-emph-style" | "plus-emph-style" | "minus-non-emph-style" | "plus-non-emph-style");
     for (i, c) in cells.iter().enumerate() {
+        if syntax_due && c.fg == Color::Default {
+            return Err(Failure::new(
+                "C12:syntax-foreground-missing",
+                format!("{}=`{}` with a syntax theme on: `syntax` asks for highlighted text, but character {} at the option's rendering site has no foreground colour ({:?})", site.option, style, i, c),
+            )
+            .with(detail(&cfg))
+            .traits(vec![format!("option:{}", site.option)]));
+        }
         let c = &if fg_open { Sgr { fg: want.fg, ..*c } } else { *c };
         if *c != want {
             return Err(Failure::new(
@@ -374,11 +385,12 @@ fn gen_color_word(t: &mut Tape) -> String {
     }
 }
 
-fn gen_style(t: &mut Tape, allow_underline_word: bool) -> String {
+fn gen_style(t: &mut Tape, allow_underline_word: bool, allow_syntax: bool) -> String {
     let mut words: Vec<String> = Vec::new();
     let nc = t.weighted(&[1, 3, 4]);
-    for _ in 0..nc {
-        let w = gen_color_word(t);
+    for ci in 0..nc {
+        // (`syntax` is a foreground word: the text keeps the colours of the syntax theme)
+        let w = if ci == 0 && allow_syntax && t.chance(1, 5) { "syntax".to_string() } else { gen_color_word(t) };
         let w = random_case(t, &w);
         words.push(if t.chance(1, 6) { format!("\"{}\"", w) } else { w });
     }
@@ -488,11 +500,12 @@ impl Prop for C12 {
         let my_probe = probe_of_identity(&ctx.identity);
         let sites: Vec<&Site> = SITES.iter().filter(|s| s.probe == my_probe).collect();
         let site = sites[t.below(sites.len())];
-        let style = gen_style(t, !(matches!(site.option, "commit-style" | "file-style") || site.option.starts_with("hunk-header")));
+        let code_site = matches!(site.option, "minus-style" | "plus-style" | "zero-style" | "minus-emph-style" | "plus-emph-style" | "minus-non-emph-style" | "plus-non-emph-style");
+        let style = gen_style(t, !(matches!(site.option, "commit-style" | "file-style") || site.option.starts_with("hunk-header")), code_site);
         let truecolor = t.coin();
         ctx.class(site.option);
         // (drawn from a fork: the site and style of a case do not depend on it)
-        let mut vt = t.fork(3);
+        let mut vt = t.fork(8);
         let mut v = Variant::default();
         if my_probe == Probe::Diff && vt.chance(1, 2) {
             v.via_gitconfig = vt.chance(2, 3);
